@@ -20,7 +20,7 @@ Qed.
 
 Lemma inv_restore start l sn : inv start l -> inv (Z.min start sn) (restore l sn).
 Proof.
-  intros [Hc Hn Hs Hf]. rewrite live_eq in Hc. apply chain_app in Hc as [Hc _].
+  intros [Hc Hn Hs Hf Hts _]. rewrite live_eq in Hc. apply chain_app in Hc as [Hc _].
   assert (Hl : live (restore l sn) = seg_batches (l_segs l)).
   { unfold live, restore, flushing_batches. cbn [l_segs l_inflight l_buffer]. now rewrite !app_nil_r. }
   constructor; cbn [restore l_interval l_segs l_inflight l_next].
@@ -32,6 +32,8 @@ Proof.
       rewrite (seg_batches_hi _ _ _ Hne Hc' Hs). lia.
   - exact Hs.
   - intros; discriminate.
+  - exact Hts.
+  - eexists. unfold flushing_batches. cbn [l_inflight l_buffer app tightc hi_of]. split; [exact I|reflexivity].
 Qed.
 
 Lemma restore_interval l sn : l_interval (restore l sn) = l_interval l.
@@ -45,41 +47,52 @@ Proof.
   - eapply IH; [assumption|]. apply inv_restore; eassumption.
 Qed.
 
-Theorem read_sound_restart iv rq start xs cached o max d :
+Theorem read_sound_restart v iv rq start xs cached o max d :
   Forall valid_xop xs ->
   let l := xrun (init_log iv rq start) xs in
-  read l cached o max = ROk d -> is_run (live l) o d.
+  read_gen v true l cached o max = ROk d -> is_run (live l) o d.
 Proof.
   intros Hv l Hr. destruct (inv_xrun xs start _ Hv (inv_init iv rq start)) as (start' & Hi).
-  destruct (read_shape _ _ _ _ _ _ Hi Hr) as (pre & mid & rest & n & El & Hp & Hm & _ & Hd & Hn & _).
+  destruct (read_shape _ _ _ _ _ _ _ Hi Hr) as (pre & mid & rest & n & El & Hp & Hm & _ & Hd & Hn & _).
   exists pre, (mid ++ rest), n. repeat split; try assumption. subst d. now apply ztake_len_ge1.
 Qed.
 
-Theorem read_paths_agree_restart iv rq start xs o max :
+Theorem read_paths_agree_restart v iv rq start xs o max :
   Forall valid_xop xs ->
   let l := xrun (init_log iv rq start) xs in
-  read l true o max = read l false o max.
+  read_gen v true l true o max = read_gen v true l false o max.
 Proof.
   intros Hv l. destruct (inv_xrun xs start _ Hv (inv_init iv rq start)) as (start' & Hi).
   change (inv start' l) in Hi. clearbody l.
-  unfold read, read_gen. destruct (find_segment (l_segs l) o) as [[s o']|] eqn:E; [|reflexivity].
-  apply find_segment_some in E as (A & B & Esegs & _). destruct Hi as [_ _ Hs _].
+  unfold read_gen. destruct (find_segment (l_segs l) o) as [[s o']|] eqn:E; [|reflexivity].
+  apply find_segment_some in E as (A & B & Esegs & _). destruct Hi as [_ _ Hs _ _ _].
   rewrite Esegs in Hs. apply Forall_app in Hs as [_ Hs]. inversion Hs as [|? ? [_ (c & r & Hseg)] _]; subst.
   symmetry. apply paths_agree_seg. rewrite Hseg. reflexivity.
 Qed.
 
-Theorem read_progress_partial_restart iv rq start xs cached o max :
+Theorem read_progress_partial_restart v iv rq start xs cached o max :
+  v_floor v = true ->
   Forall valid_xop xs ->
   let l := xrun (init_log iv rq start) xs in
   0 < max -> (exists b, In b (live l) /\ o <= b_last b) ->
   entry_distance l o < max ->
-  exists d, read l cached o max = ROk d /\ progress_run (live l) o d.
+  exists d, read_gen v true l cached o max = ROk d /\ progress_run (live l) o d.
 Proof.
-  intros Hv l Hmax Hex Hdist. destruct (inv_xrun xs start _ Hv (inv_init iv rq start)) as (start' & Hi).
+  intros Hvf Hv l Hmax Hex Hdist. destruct (inv_xrun xs start _ Hv (inv_init iv rq start)) as (start' & Hi).
   change (inv start' l) in Hi. clearbody l.
-  destruct (read_ok start' l cached o max Hi Hex) as (d & Hr). exists d. split; [exact Hr|].
-  destruct (read_shape _ _ _ _ _ _ Hi Hr) as (pre & mid & rest & n & El & Hp & Hm & Hrest & Hd & Hn & Hed & Hnm).
+  destruct (read_ok v start' l cached o max Hi Hex) as (d & Hr). exists d. split; [exact Hr|].
+  destruct (read_shape _ _ _ _ _ _ _ Hi Hr) as (pre & mid & rest & n & El & Hp & Hm & Hrest & Hd & Hn & Hed & Hnm & _).
   exists pre, mid, rest, n. repeat split; try assumption.
   - apply Forall_app; split; assumption.
-  - subst d. rewrite zlen_ztake by lia. specialize (Hnm Hmax). lia.
+  - subst d. rewrite zlen_ztake by lia. specialize (Hnm Hmax). specialize (Hed Hvf). lia.
+Qed.
+
+Theorem read_progress_restart iv rq start xs cached o max :
+  Forall valid_xop xs ->
+  let l := xrun (init_log iv rq start) xs in
+  0 < max -> (exists b, In b (live l) /\ o <= b_last b) ->
+  exists d, read l cached o max = ROk d /\ progress_run (live l) o d.
+Proof.
+  intros Hv l Hmax Hex. destruct (inv_xrun xs start _ Hv (inv_init iv rq start)) as (start' & Hi).
+  exact (progress_of_shape VFull start' l cached o max eq_refl Hi Hmax Hex).
 Qed.
